@@ -45,6 +45,10 @@ static size_t g_rootlen = 0;
 static int g_log = -1;
 static long g_fail_at = 0, g_kill_at = 0;
 static int g_errno = ENOSPC, g_persist = 0, g_failing = 0;
+/* FSSHIM_PERSIST: 0 = the chosen operation fails once; 1 = it and every later mutating operation fail;
+   2 = it and every later operation that needs space (create, write, truncate, mkdir) fail while rename, unlink and
+   close keep working -- the shape of a disk that stays full */
+static int g_space = 0;   /* set by the wrappers of space-consuming operations before begin_op */
 static const char *g_snap = NULL;
 static int g_step_out = -1, g_step_in = -1; /* FSSHIM_STEP_OUT / FSSHIM_STEP_IN: FIFOs for single-stepping */
 static long g_n = 0;
@@ -258,7 +262,7 @@ static int begin_op(long *n_out)
         logline(n, "KILL", 0, 0, 0, 0, 0, 0, "-", NULL);
         _exit(137);
     }
-    if (g_fail_at && (n == g_fail_at || (g_persist && n > g_fail_at))) return 1;
+    if (g_fail_at && (n == g_fail_at || (g_persist == 1 && n > g_fail_at) || (g_persist == 2 && n > g_fail_at && g_space))) return 1;
     return 0;
 }
 
@@ -279,7 +283,7 @@ static int do_open(int which, int dirfd, const char *path, int flags, mode_t mod
     const char *ap = PASS ? NULL : abspath(dirfd, path, buf);
     long n = 0;
     int inj = 0;
-    if (ap && under_root(ap) && is_write_open(flags)) inj = begin_op(&n);
+    if (ap && under_root(ap) && is_write_open(flags)) { g_space = 1; inj = begin_op(&n); }
     else if (!(ap && under_root(ap))) ap = NULL;
     if (inj) {
         ret = -1;
@@ -339,6 +343,7 @@ static ssize_t do_write(int which, int fd, const void *b, size_t len, off64_t of
     int inj = 0;
     if (!PASS && fd >= 0 && fd < MAXFD && g_wfd[fd] == 1) {
         p = fdpath(fd, buf);
+        g_space = 1;
         inj = begin_op(&n);
     }
     if (inj) {
@@ -371,6 +376,7 @@ static int do_ftruncate(int which, int fd, off64_t len)
     int inj = 0;
     if (!PASS && fd >= 0 && fd < MAXFD && g_wfd[fd] == 1) {
         p = fdpath(fd, buf);
+        g_space = 1;
         inj = begin_op(&n);
     }
     if (inj) {
@@ -398,7 +404,7 @@ int close(int fd)
     if (!PASS && fd >= 0 && fd < MAXFD && g_wfd[fd]) {
         kind = g_wfd[fd];
         p = fdpath(fd, buf);
-        if (kind == 1) inj = begin_op(&n);
+        if (kind == 1) { g_space = 0; inj = begin_op(&n); }
         g_wfd[fd] = 0;
     }
     ret = r_close(fd);
@@ -421,7 +427,7 @@ static int do_rename(int od, const char *a, int nd, const char *b)
     const char *pa = PASS ? NULL : abspath(od, a, b1), *pb = PASS ? NULL : abspath(nd, b, b2);
     long n = 0;
     int inj = 0, mine = pa && pb && (under_root(pa) || under_root(pb));
-    if (mine) inj = begin_op(&n);
+    if (mine) { g_space = 0; inj = begin_op(&n); }
     if (inj) {
         ret = -1;
         errno = g_errno;
@@ -444,7 +450,7 @@ static int do_mkdir(int dirfd, const char *path, mode_t mode)
     const char *ap = PASS ? NULL : abspath(dirfd, path, buf);
     long n = 0;
     int inj = 0, mine = ap && under_root(ap);
-    if (mine) inj = begin_op(&n);
+    if (mine) { g_space = 1; inj = begin_op(&n); }
     if (inj) {
         ret = -1;
         errno = g_errno;
@@ -467,7 +473,7 @@ static int do_unlink(int which, int dirfd, const char *path, int flags)
     const char *ap = PASS ? NULL : abspath(dirfd, path, buf);
     long n = 0;
     int inj = 0, mine = ap && under_root(ap);
-    if (mine) inj = begin_op(&n);
+    if (mine) { g_space = 0; inj = begin_op(&n); }
     if (inj) {
         ret = -1;
         errno = g_errno;
